@@ -43,10 +43,10 @@ CHECKS = {
               "with MultiplierFactory on every ordered operand pair of the lattice, and every value pair of <=4/5-bit operand types is "
               "brute-forced inside Coq. Two table entries are refuted with witnesses (known findings)."),
         design_ref="DESIGN.md section 5 C16, section 10",
-        note=(TB_COMMON + "Value sets of the qtools types (QTools/Types.v) are my reading of the type fields: fixed = code*2^-(bits-sign-int_bits) "
+        note=(TB_COMMON + "Translator trusted (symbolic execution of the __init__ bodies; energy bookkeeping attributes dropped; quantizer conversion convert_qkeras_quantizer and get_min_max_exp tied by K). Value sets of the qtools types (QTools/Types.v) are my reading of the type fields: fixed = code*2^-(bits-sign-int_bits) "
               "two's complement; po2 = +-2^e within get_exp's range capped by max_value, plus 0 for gate outputs; ternary/binary by kind. "
               "np.log2/math.ceil are modelled by exact integer functions."),
-        technique="Coq proof over a transcription of the type rules + exhaustive differential correspondence + in-Coq brute force (vm_compute)"),
+        technique="Coq proof over the type rules; the rules are REGENERATED from multiplier_impl.py / multiplier_factory.py on every run (tools/translate/qtoolsops.py) and link lemmas (generated = model, all operands) are re-proved; + exhaustive differential correspondence + in-Coq brute force (vm_compute)"),
     "C17": dict(
         category="proof",
         text=("Coq theorems (Properties/C17.v): for every N >= 1 the fixed-point accumulator holds any sum of N (+bias) multiplier-output "
@@ -55,8 +55,8 @@ CHECKS = {
               "exponent and refuted at it; merge Add/Maximum are refuted with witnesses (known findings). Rules compared field by field with "
               "AccumulatorFactory / IAdder / MergeFactory over the operand lattice, kernel shapes up to N=2^20."),
         design_ref="DESIGN.md section 5 C17, section 10",
-        note=(TB_COMMON + "Same value-set reading as C16. np.ceil(np.log2(n)) is compared with Z.log2_up at 2^k, 2^k+-1 (k<=20) on every run."),
-        technique="Coq proof (induction over operand lists) + exhaustive differential correspondence + in-Coq brute force"),
+        note=(TB_COMMON + "Translator trusted (symbolic execution of the __init__ bodies; energy bookkeeping attributes dropped; get_min_max_exp is a model primitive tied by K). Same value-set reading as C16. np.ceil(np.log2(n)) is compared with Z.log2_up at 2^k, 2^k+-1 (k<=20) on every run."),
+        technique="Coq proof (induction over operand lists); accumulator / adder rules REGENERATED from accumulator_impl.py, adder_impl.py, adder_factory.py on every run with re-proved link lemmas; + exhaustive differential correspondence + in-Coq brute force"),
     "C03": dict(
         category="proof",
         text=("Coq theorems (Properties/C03.v) over all bit widths, max_value settings and rational inputs: the exponent lies in the "
